@@ -31,6 +31,37 @@ def spec_events(specs, t0, tstop_default):
     return out
 
 
+def special_case(rng, j):
+    """inputs the random generator does not reach: nodes of integer type with a terminal event between them, and a crossing
+    shortly (but more than the default event_duration 1e-8) after the start of the run.  Returns the case and the tspan object
+    handed to Rodas."""
+    pname = str(rng.choice(["decay", "ramp", "osc"]))
+    optkw = dict(rtol=float(rng.choice([1e-3, 1e-5, 1e-7])), atol=float(rng.choice([1e-6, 1e-9])))
+    if rng.random() < 0.3:
+        optkw["scheme"] = str(rng.choice(["rodasp", "rodas5p"]))
+    if j % 2 == 0:
+        a = int(rng.choice([0, -2, 10, 3]))
+        n = int(rng.integers(3, 12))
+        c = a + float(rng.integers(1, n)) + float(rng.choice([0.0816, 0.5, 0.93, 0.25]))
+        if c >= a + n:
+            c = a + n - 0.37
+        nodes = np.arange(a, a + n + 1) if rng.random() < 0.5 else [int(x) for x in range(a, a + n + 1)]
+        if rng.random() < 0.3:
+            nodes = nodes[::2] if len(nodes[::2]) > 2 and nodes[::2][-1] == a + n else nodes
+        specs = [(float(c), int(rng.choice([0, 1])), True)]
+        if rng.random() < 0.4:
+            specs.insert(0, (float(a + 0.5 * (c - a)), 0, False))
+        return pname, [float(x) for x in nodes], nodes, optkw, specs, "integer_nodes_terminal"
+    t0 = float(rng.choice([0.0, 0.25, 10.0, -1.5]))
+    span = float(rng.choice([0.5, 2.0, 7.3]))
+    delta = float(rng.choice([3e-8, 2e-7, 5e-7, 9e-7, 4e-6]))
+    tspan = [t0, t0 + span] if rng.random() < 0.5 else [float(x) for x in np.linspace(t0, t0 + span, int(rng.integers(3, 30)))]
+    specs = [(t0 + delta, int(rng.choice([0, 1])), bool(rng.random() < 0.5))]
+    if rng.random() < 0.4:
+        specs.append((t0 + 0.6 * span, 0, False))
+    return pname, tspan, tspan, optkw, specs, "crossing_shortly_after_start"
+
+
 def run(rep, tier, seed):
     rep.cov["trusted_base"] = BASE_TRUST + [
         "event functions in the correspondence depend on time only (g_i = t - c_i), so that the Lean model can evaluate them itself; "
@@ -44,19 +75,29 @@ def run(rep, tier, seed):
     lines, expect, cases = [], [], []
     fails, diffs, broken, known, known22 = [], [], [], [], []
     hist = dict(single=0, multi_in_step=0, terminal=0, events_reported=0, none=0)
-    for k in range(ncase):
-        multi = bool(rng.random() < 0.5)
-        pname, tspan, optkw, specs = RC.gen_case(rng, with_events=True, multi=multi)
+    nspecial = 16 if tier == "quick" else 120
+    rng_s = np.random.default_rng([seed, 1010])
+    for k in range(ncase + nspecial):
+        tspan_arg = None
+        if k >= ncase:
+            pname, tspan, tspan_arg, optkw, specs, kind = special_case(rng_s, k - ncase)
+            hist[kind] = hist.get(kind, 0) + 1
+        else:
+            multi = bool(rng.random() < 0.5)
+            pname, tspan, optkw, specs = RC.gen_case(rng, with_events=True, multi=multi)
         if pname == "vdp":
             pname = "ramp"
-        if k % 5 == 4:
+        if k < ncase and k % 5 == 4:
             # a single NON-terminal event close to tend (inside the last accepted step): only a terminal event may end the run
             span_ = float(tspan[-1] - tspan[0])
             specs = [(float(tspan[-1] - span_ * float(rng.choice([1e-3, 1e-2, 3e-2]))), 0, False)]
             hist["nonterminal_near_tend"] = hist.get("nonterminal_near_tend", 0) + 1
         dae, y0 = P[pname]
         case = dict(problem=pname, tspan=tspan if len(tspan) < 12 else [tspan[0], "...", tspan[-1], len(tspan)], opt=optkw, events=specs)
-        sol, tr = RC.run_rodas(dae, y0, tspan, optkw, specs)
+        if tspan_arg is not None and not isinstance(tspan_arg[0], float):
+            case["tspan_type"] = ("ndarray of " + str(tspan_arg.dtype)) if isinstance(tspan_arg, np.ndarray) else "list of int"
+            case["tspan"] = [int(x) for x in tspan_arg]
+        sol, tr = RC.run_rodas(dae, y0, tspan if tspan_arg is None else tspan_arg, optkw, specs)
         if isinstance(sol, Exception):
             fails.append((case, f"Rodas raised {type(sol).__name__}: {sol}"))
             continue
@@ -157,6 +198,30 @@ def run(rep, tier, seed):
                 err_ev = float(np.max(np.abs(Ye - np.array([ex_osc(t) for t in np.asarray(sev.T)]))))
                 if err_ev > 20 * err_free + 1e-10:
                     fails.append((case, f"locating events perturbs the trajectory: error with events {err_ev:.3g} vs {err_free:.3g} without"))
+    # ---- a state-dependent, nonlinear event function whose only sign change lies shortly after the start of the run (y' = 1,
+    #      g = (s - delta) * (1 + a s + s^2), s = y - t0): within `event_duration` the crossing may be taken for the start itself and
+    #      dropped, but no event may be reported anywhere else (soundness across steps, D25); beyond it the crossing is reported
+    ramp_nl = nDAE(csc_array(np.eye(1)), lambda t, y, p: np.array([1.0]), lambda t, y, p: csc_array(np.array([[0.0]])), {})
+    for t0 in ((0.0, 0.25, 10.0) if tier == "quick" else (0.0, 0.25, 10.0, -1.5, 1e3)):
+        for delta in (2e-9, 5e-9, 9e-9, 5e-7, 1e-3):
+            for a_ in (1.0, 3.0, -0.5):
+                for scheme in (("rodas4",) if tier == "quick" else ("rodas4", "rodasp", "rodas5p")):
+                    nosc += 1
+                    def ev_nl(t, y, t0=t0, delta=delta, a_=a_):
+                        s_ = y[0] - t0
+                        return np.array([(s_ - delta) * (1.0 + a_ * s_ + s_ * s_)]), np.array([False]), np.array([0.0])
+                    case = dict(problem="y' = 1, y(t0) = t0; event g = (s - delta)(1 + a s + s^2), s = y - t0", t0=t0, delta=delta, a=a_, scheme=scheme,
+                                tspan=[t0, t0 + 2.0])
+                    try:
+                        snl = RC.quiet(Rodas, ramp_nl, [t0, t0 + 2.0], np.array([t0]), Opt(scheme=scheme, rtol=1e-5, atol=1e-8, event=ev_nl))
+                    except Exception as ex:  # noqa
+                        fails.append((case, f"Rodas raised {type(ex).__name__}: {str(ex)[:80]}")); continue
+                    te = np.asarray(snl.te, dtype=float)
+                    wrong = [float(x) for x in te if abs(x - (t0 + delta)) > 1e-7 * max(1.0, abs(t0)) + 1e-9]
+                    if wrong:
+                        fails.append((case, f"event reported at {wrong} (t0 + {[w - t0 for w in wrong]}): the event function changes sign only at t0 + {delta}"))
+                    elif delta > 1e-8 and len(te) != 1:
+                        fails.append((case, f"{len(te)} events reported, the event function changes sign once, at t0 + {delta}"))
     rep.cov["state_dependent_event_runs"] = nosc
     try:
         got = run_driver(lines)
